@@ -361,7 +361,7 @@ def classify(r, script):
         sends = [x for x in script if ('send_data(' in x or 'end_stream(' in x) and 'raised' not in x]
         if sends and ('end_stream(' in sends[-1] or ', 0 bytes' in sends[-1]):
             return 'F-C01-5'
-    if 'did not shrink table size' in text and sum(1 for s in script if 'update_settings(' in s) >= 2 and any('update_settings({1:' in s for s in script):
+    if ('did not shrink table size' in text or 'exceeded max allowable table size' in text) and sum(1 for s in script if 'update_settings(' in s) >= 2 and any('update_settings({1:' in s for s in script):
         return 'F-C01-3'
     if 'Received pushed stream' in text and sum(1 for s in script if 'client: update_settings(' in s) >= 2 and any('update_settings({2: 0})' in s for s in script):
         return 'F-C01-3'      # ENABLE_PUSH = 0 applied by the acknowledgement of an EARLIER frame: a push sent legitimately before the server saw it is refused
